@@ -71,11 +71,14 @@ structure AdjConsts where
   threshold : Rat
   fineSub : Int
   coarse : Int
+  /-- the intervention's own year vector (abscissae of the interpolated probabilities) has one entry per time point
+      (`start_year + arange(len(timepoints))*dt`) instead of `np.arange(start_year, end_year + adj_factor, dt)` -/
+  vecPerTimepoint : Bool
   deriving DecidableEq
 
 /-- the constants the source has today (`asis`) and the repaired ones (`spec`) -/
-def AdjConsts.asis : AdjConsts := ⟨1, 1, 1⟩
-def AdjConsts.spec : AdjConsts := ⟨1, 1, 0⟩
+def AdjConsts.asis : AdjConsts := ⟨1, 1, 1, false⟩
+def AdjConsts.spec : AdjConsts := ⟨1, 1, 0, true⟩
 
 def adjFactor (c : AdjConsts) (dt : Rat) : Int :=
   if dt < c.threshold then (1 / dt).floor - c.fineSub else c.coarse
@@ -128,7 +131,8 @@ def routinePoints (c : AdjConsts) (i : RoutineIn) (sy ey : Rat) : Option (Nat ×
 def routineProb (c : AdjConsts) (i : RoutineIn) (sy ey : Rat) (ntp : Nat) : Except Err (List Rat) :=
   -- sc.inclusiverange(sy, ey): int((ey-sy)/1)+1 points
   let nY : Int := (if ey < sy then -((sy - ey).floor) else (ey - sy).floor) + 1
-  let nVec := ((ey + (adjFactor c i.dt : Rat) - sy) / i.dt).ceil.toNat      -- len(np.arange(sy, ey + adj, dt))
+  let nVec := if c.vecPerTimepoint then ntp
+              else ((ey + (adjFactor c i.dt : Rat) - sy) / i.dt).ceil.toNat      -- len(np.arange(sy, ey + adj, dt))
   if nY < 0 then .error .value else
   if nY.toNat ≠ i.prob.length then
     match i.prob with
